@@ -444,6 +444,7 @@ fn gen_c09(seed: u64, _index: u64, tier: Tier) -> ServerPlan {
     faults.insert("tcp.short_read".into(), *r.pick(&[0.0, 0.3, 0.8]));
     faults.insert("tcp.partial_write".into(), *r.pick(&[0.0, 0.3]));
     faults.insert("fs.list_order".into(), 0.5);
+    faults.insert("order.any_answer".into(), *r.pick(&[0.0, 0.5, 1.0]));
     ServerPlan {
         knobs: ServerKnobsPlan {
             authoritative_only,
